@@ -709,6 +709,7 @@ func VH_C04_optimizeclose_Q() {
 func VH_C04_offset_arc_distance_Q() {
 	vMerge(false)
 	vLeanAsserts(true)
+	vNLFirst(true)
 	type arc struct {
 		rx, ry float64
 		rot    int // index into units: rotation of the ellipse
@@ -842,4 +843,73 @@ func VH_C04_offset_arc_distance_Q() {
 		}
 		vAssert("C04.arcdist.no_vertex_farther_than_the_offset", !far)
 	}
+}
+
+// C04 (Offset of closed contours, the whole code incl. the round joins and the settling): every
+// closed subpath is moved by w to its own right-hand side - counter-clockwise contours grow for
+// w > 0 (round corners) and shrink for w < 0 (sharp corners), clockwise contours the other way
+// round - and keeps its orientation.  Concrete rectangles (one or two subpaths, same or mixed
+// orientation, a frame with its hole second or first), concrete w, symbolic sample point at
+// least 0.03 away from every moved boundary: the winding number of Offset's result around the
+// point is the sum of the moved contours' winding numbers.
+func VH_C04_offset_closed_region_Q() {
+	vLeanAsserts(true)
+	vNLFirst(true)
+	type rect struct {
+		x0, y0, x1, y1 float64
+		ccw            bool
+	}
+	shapes := [][]rect{
+		{{0, 0, 6, 6, true}},
+		{{0, 0, 6, 6, false}},
+		{{0, 0, 10, 10, true}, {3, 3, 7, 7, false}},
+		{{3, 3, 7, 7, false}, {0, 0, 10, 10, true}},
+		{{0, 0, 4, 4, true}, {8, 0, 12, 4, false}},
+		{{0, 0, 4, 4, false}, {8, 0, 12, 4, true}},
+	}
+	sh := shapes[vChoose(0, len(shapes)-1)]
+	w := []float64{1, -1, 0.5}[vChoose(0, 2)]
+	var pg []vhPgon
+	for _, r := range sh {
+		pg = append(pg, vhRect(r.x0, r.y0, r.x1, r.y1, r.ccw))
+	}
+	p := vhPgonPath(pg)
+	before := vhCopyData(p.d)
+	q := p.Offset(w, 0.01)
+	vAssert("C04.offsetclosed.receiver_unchanged", vhSameData(p.d, before))
+	vAssert("C04.offsetclosed.wellformed", vhStructWF(q))
+	x, y := vNondetF64(), vNondetF64()
+	vAssume(-4 <= x && x <= 16 && -4 <= y && y <= 14)
+	m := 0.03
+	want := 0
+	for _, r := range sh {
+		d := w // how far the contour's region grows
+		if !r.ccw {
+			d = -w
+		}
+		in := false
+		if d > 0 {
+			dx := math.Max(math.Max(r.x0-x, x-r.x1), 0)
+			dy := math.Max(math.Max(r.y0-y, y-r.y1), 0)
+			dd := dx*dx + dy*dy
+			vAssume(dd <= (d-m)*(d-m) || dd >= (d+m)*(d+m))
+			in = dd <= d*d
+		} else {
+			// shrunk rectangle with sharp corners
+			e := -d
+			in = r.x0+e+m <= x && x <= r.x1-e-m && r.y0+e+m <= y && y <= r.y1-e-m
+			out := x <= r.x0+e-m || x >= r.x1-e+m || y <= r.y0+e-m || y >= r.y1-e+m
+			vAssume(in || out)
+		}
+		if in {
+			if r.ccw {
+				want++
+			} else {
+				want--
+			}
+		}
+	}
+	got, clear := vhWindingAt(q, x, y)
+	vAssume(clear)
+	vAssert("C04.offsetclosed.winding_of_the_moved_contours", got == want)
 }
